@@ -27,13 +27,22 @@ fn twice(v: f64) -> Option<i64> {
 /// recorded (doubled) entry is 0
 type Nz = [(usize, usize)];
 
+/// recorded (doubled) entries that stand for +infinity / -infinity (only ever placed in the
+/// matrix handed to transform, as values unseen in fit)
+const INF2: i64 = 2147483646;
+const NINF2: i64 = -2147483646;
+
 macro_rules! encode_impl {
     ($name:ident, $t:ty, $ty:expr, $mat:ty, $mk:expr) => {
         fn $name(run: i64, x2: &M2, t2: &M2, nz: &Nz, cats: &[usize], expect2: Option<&Value>) -> Value {
             let to_m = |m2: &M2| -> $mat {
                 let mut rows: Vec<Vec<$t>> = m2
                     .iter()
-                    .map(|r| r.iter().map(|&v| (v as f64 / 2.0) as $t).collect())
+                    .map(|r| r.iter().map(|&v| match v {
+                        INF2 => <$t>::INFINITY,
+                        NINF2 => <$t>::NEG_INFINITY,
+                        _ => (v as f64 / 2.0) as $t,
+                    }).collect())
                     .collect();
                 for &(r, c) in nz.iter() {
                     if r < m2.len() && c < m2[r].len() && m2[r][c] == 0 {
@@ -434,6 +443,50 @@ fn main() {
                         out.emit(encode(ty, run, &x2, &t2, &nz, &cats, None));
                     }
                     _ => {}
+                }
+            }
+            // ERROR families with a special arithmetic shape.
+            //  (a) fit: a categorical column with SEVERAL non-integer values whose deviations
+            //      from the truncated codes cancel (x + 1/2 against -1/2, which truncates to 0);
+            //  (b) transform: an unseen value outside the u16 code range -- 65536, 70000, 1e9,
+            //      +infinity, -1, -1e9, -infinity (and 65535 itself) -- with and without the codes
+            //      0 / 65535 among the fitted categories.
+            let nerr = if th { 900 } else { 240 };
+            for i in 0..nerr {
+                let (mut x2, cats, nz) = loop {
+                    let l = random_layout(&mut r, None, 6);
+                    if !l.1.is_empty() && l.0.len() >= 2 {
+                        break l;
+                    }
+                };
+                let n = x2.len();
+                let ty = [0, 1, 2][i % 3];
+                let j = cats[r.gen_range(0..cats.len())];
+                if i % 3 == 0 {
+                    let pairs = r.gen_range(1..=(n / 2).min(3));
+                    let mut rows: Vec<usize> = (0..n).collect();
+                    rows.shuffle(&mut r);
+                    for q in 0..pairs {
+                        x2[rows[2 * q]][j] += 1;       // code + 1/2
+                        x2[rows[2 * q + 1]][j] = -1;   // -1/2
+                    }
+                    run += 1;
+                    out.emit(encode(ty, run, &x2, &x2, &nz, &cats, None));
+                } else {
+                    // with code 0 / code 65535 forced into the fitted column, or neither
+                    match (i / 3) % 3 {
+                        0 => x2[r.gen_range(0..n)][j] = 0,
+                        1 => x2[r.gen_range(0..n)][j] = 2 * 65535,
+                        _ => {}
+                    }
+                    let special = [2 * 65535, 2 * 65536, 140000, 2_000_000_000, INF2, -2, -2_000_000_000, NINF2][(i / 9) % 8];
+                    if x2.iter().any(|rw| rw[j] == special) {
+                        continue;
+                    }
+                    let mut t2 = x2.clone();
+                    t2[r.gen_range(0..n)][j] = special;
+                    run += 1;
+                    out.emit(encode(ty, run, &x2, &t2, &nz, &cats, None));
                 }
             }
             // ROW-COUNT ladder ("for every matrix"): row counts around the block sizes at which a
